@@ -18,7 +18,7 @@ def build():
     U.raw(C.VALUE_SPECS + C.TRUTHY_SPEC, 'shared vocabulary')
     U.raw(C.TRAIT_FULL, 'CelValueDyn restated')
     U.raw('impl View for CelByteCode { type V = Seq<ByteCode>; closed spec fn view(&self) -> Seq<ByteCode> { self.inner@ } }\n'
-          + S.CORE.replace('pub trait Tokenizer {', 'pub trait TokenizerUnused {') + S.ITER, 'ghost vocabulary')
+          + S.CORE.replace('pub trait Tokenizer {', 'pub trait TokenizerUnused {') + S.ITER + S.FCWB_SPEC, 'ghost vocabulary')
     U.raw(C.STD_SPECS, 'assumed std specs')
     U.raw(S.axioms(), 'axioms')
     U.extract(C.CE, 'impl From<SyntaxError> for CelError', fns={'from': A(ret='r', ensures=[('def', 'r == CelError::Syntax(value)')], props=('C01',))})
@@ -30,6 +30,7 @@ def build():
         'into_iter': A(external_body=True, ret='r', ensures=[('yields_the_points_in_order', 'points_of(r) == self@')]),
     })
     d = S.compprog_contracts()
+    d['from_children_w_bytecode'] = S.FCWB
     d['append_if_bytecode'] = A(ensures=[('appends_to_code_only', 'node_view(final(self).inner) == (match node_view(old(self).inner) { SNode::Code(s) => SNode::Code(s + points_of(b)), SNode::Const(c) => SNode::Const(c) }) && final(self).details@ == old(self).details@')],
                                 props=('C10', 'C05', 'C01'))
     U.extract(S.CPR, 'impl CompiledProg', fns=d, others='stub', skip=('into_program',))
